@@ -1318,6 +1318,64 @@ func genSoup(r *hx.Rng, modelled, undefined []byte) []byte {
 
 // ---------------------------------------------------------------------------------------------
 
+// (pops, pushes) of the instructions of the reference set, written from the Yellow Paper's delta/alpha columns
+// (independently of the jump table)
+func stackArity(op byte) (int, int, bool) {
+	if oi, ok := opByCode[op]; ok {
+		return oi.arity, 1, true
+	}
+	for _, e := range envOpcodes {
+		if e == op {
+			return 0, 1, true
+		}
+	}
+	switch {
+	case op == 0x00 || op == 0x5b:
+		return 0, 0, true
+	case op == 0x20:
+		return 2, 1, true
+	case op == 0x35 || op == 0x51:
+		return 1, 1, true
+	case op == 0x36 || op == 0x38 || op == 0x3d || op == 0x58 || op == 0x59 || op == 0x5a || op == 0x5f:
+		return 0, 1, true
+	case op == 0x37 || op == 0x39 || op == 0x3e || op == 0x5e:
+		return 3, 0, true
+	case op == 0x50 || op == 0x56:
+		return 1, 0, true
+	case op == 0x52 || op == 0x53 || op == 0x57 || op == 0xf3 || op == 0xfd:
+		return 2, 0, true
+	case op >= 0x60 && op <= 0x7f:
+		return 0, 1, true
+	case op >= 0x80 && op <= 0x8f:
+		return int(op-0x80) + 1, int(op-0x80) + 2, true
+	case op >= 0x90 && op <= 0x9f:
+		return int(op-0x90) + 2, int(op-0x90) + 2, true
+	case op == 0xf1:
+		return 7, 1, true
+	case op == 0xfa:
+		return 6, 1, true
+	}
+	return 0, 0, false
+}
+
+// stackProbe: h items on the stack (PC pushes, one byte each), then op, then room is made and a marker returned
+func stackProbe(op byte, h int, r *hx.Rng) []byte {
+	c := make([]byte, 0, h+64)
+	for i := 0; i < h; i++ {
+		c = append(c, 0x58)
+	}
+	c = append(c, op)
+	if op >= 0x60 && op <= 0x7f {
+		c = append(c, r.Bytes(int(op-0x5f))...)
+	}
+	p, q, _ := stackArity(op)
+	after := h - p + q
+	for ; after > 1021; after-- {
+		c = append(c, 0x50)
+	}
+	return append(c, 0x60, 0xaa, 0x60, 0x00, 0x52, 0x60, 0x20, 0x60, 0x00, 0xf3)
+}
+
 func zs(v *big.Int) string { return "(" + v.String() + ")%Z" }
 
 func tableCoq(t [256]vm.VerifVMOp, mag int) string {
@@ -1717,6 +1775,47 @@ func main() {
 					if ob3.class != "oog" {
 						res.Violate("C10/program:gas-short", "a run given less gas than it needs does not end out of gas", map[string]interface{}{"code": hex.EncodeToString(code), "gas": used - 1, "fork": f.String(), "observed": ob3.class})
 					}
+				}
+			}
+		}
+	}
+
+	// =========================================================================================
+	// stack limits: for every instruction of the reference set in every live table, the stack one item short of and
+	// exactly at the height where it must overflow (1024 items afterwards are allowed, 1025 are not), and one item
+	// short of / exactly at the number of items it removes
+	curValue = new(big.Int)
+	for _, f := range vmx.AllForks {
+		fi := f.Index()
+		for b := 0; b < 256; b++ {
+			op := byte(b)
+			p, q, ok := stackArity(op)
+			if !ok || !defined[fi][b] {
+				continue
+			}
+			name := fmt.Sprintf("0x%02x", b)
+			type probe struct {
+				h    int
+				want string // "overflow", "underflow" or "" (neither)
+			}
+			var probes []probe
+			if q > p {
+				probes = append(probes, probe{1024 - (q - p), ""}, probe{1024 - (q - p) + 1, "overflow"})
+			}
+			if p > 0 {
+				probes = append(probes, probe{p - 1, "underflow"})
+				if op != 0xf1 && op != 0xfa {
+					probes = append(probes, probe{p, ""})
+				}
+			}
+			for _, pr := range probes {
+				code := stackProbe(op, pr.h, rng)
+				toModel := rng.Intn(80) == 0 || (op == 0x5f && pr.h >= 1023 && rng.Intn(3) == 0)
+				ob := progCase(f, code, nil, 10000000, "stacklimit", toModel)
+				isOver, isUnder := ob.class == "overflow", ob.class == "underflow"
+				if (pr.want == "overflow") != isOver || (pr.want == "underflow") != isUnder {
+					res.Violate("C10/stacklimit:"+name, fmt.Sprintf("opcode %s (removes %d, adds %d) on a stack of %d items ended %q; the stack-height rule demands %q", name, p, q, pr.h, ob.class, pr.want),
+						map[string]interface{}{"fork": f.String(), "opcode": name, "height": pr.h, "code": hex.EncodeToString(code), "observed": ob.class, "ret": hex.EncodeToString(ob.ret)})
 				}
 			}
 		}
